@@ -419,3 +419,12 @@ func VerifGlobalSnapshot() string {
 		fragmentItagsSeparator, dsaKeyType, otrv2FragmentationPrefix, otrv3FragmentationPrefix, defaultResentPrefix,
 		whitespaceTagHeader, p, q, g1, pMinusTwo, len(tlvHandlers), timeoutLength, dontIgnoreFastRepeatQueryMessage)
 }
+
+// VerifIsGroupElement is the range check applied to received group elements: the version's check used by SMP
+// (v = 2 or 3) or, with v = 0, the package-level one used by the key exchange.
+func VerifIsGroupElement(v int, n *big.Int) bool {
+	if v == 0 {
+		return isGroupElement(n)
+	}
+	return verifVersion(v).isGroupElement(n)
+}
